@@ -1,4 +1,6 @@
 import TorrentVerif.Proofs.Recheck
+import TorrentVerif.Proofs.RecheckFull
+import TorrentVerif.Model.ExceptEq
 /-
   C16 — the percentage recheck reports is the exact share of bytes in verifying pieces;
   damage confined to one piece never changes the verdict on another piece.
@@ -202,5 +204,88 @@ theorem verdict_local_v2 (H : Bytes → Bytes) (B hs bpp : Nat) (hB : 0 < B) (hb
 /-- the tail of a two-piece file cut off: the bytes of piece 0 are unchanged -/
 example : pieceBytes (2 * 2) (Impl.fDisk (7, [1,2], [1,2,5,6], some [1,2,3,4,5,6,7])) 0
     = pieceBytes (2 * 2) (Impl.fDisk (7, [1,2], [1,2,5,6], some [1,2,3,4])) 0 := by decide
+
+/-! ### the whole `Checker` (`Model/RecheckFull`): metafile → file map → verdicts → result -/
+
+open RF in
+/-- THE whole-`Checker` refinement (decoded metafile, any content argument).  Let the metafile
+    be well-formed for the payload `disk` (`Spec.plan` defined: v1 → one zero-filled stream,
+    v2 / hybrid → file by file) and the disk in scope (`Plan.InScope`: nothing longer than
+    recorded, a recorded digest per piece; `NoDirAtFile`: no directory where a file is
+    described), let `find_root` resolve the content argument to the payload (root or parent,
+    `C05.root_or_parent`), and the metafile not be the empty-single-file case of
+    `C05.emptySingleV2_keyError`.  Then `Checker(metafile, path)` + `iter_hashes()` succeed,
+    and the verdict stream, `matched` and `consumed` are those of the reference
+    `Spec.recheck`: piece by piece, bytes in verifying pieces, bytes in all pieces. -/
+theorem recheckMeta_eq_spec (H1 H : Bytes → Bytes) (B hs : Nat) (hhs : 0 < hs) (mf : BVal)
+    (disk : Disk) (p : Spec.Plan) (argName : Bytes) (here : Option Node)
+    (hplan : Spec.plan B mf disk = some p) (hscope : p.InScope B hs)
+    (hroot : Impl.findRoot (Impl.nameOf mf) argName here = .ok disk)
+    (hnodir : Spec.NoDirAtFile mf disk) (hne : ¬ Spec.EmptySingleV2 mf (isFile disk)) :
+    Impl.recheckMeta H1 H B hs mf argName here
+      = .ok (p.verdicts H1 H B hs, Spec.ratio (p.verdicts H1 H B hs)) ∧
+    Spec.recheck H1 H B hs mf disk
+      = some (p.verdicts H1 H B hs, Spec.ratio (p.verdicts H1 H B hs)) :=
+  ⟨Spec.recheckMeta_of_plan H1 H B hs hhs mf disk p argName here hplan hscope hroot hnodir hne,
+    by simp [Spec.recheck, hplan]⟩
+
+/-- damaged v2 tree (`a` truncated to 5 of 7 bytes, `d/c` removed) through the parent
+    directory: implementation and reference give 4 of 10 bytes -/
+example :
+    Impl.recheckMeta RF.Ex.h1 toyH 2 2 RF.Ex.v2Meta [104] (some (.dir [([110], RF.Ex.v2Damaged)]))
+      = .ok ([(true, 4), (false, 3), (false, 3)], 4, 10) ∧
+    Spec.recheck RF.Ex.h1 toyH 2 2 RF.Ex.v2Meta RF.Ex.v2Damaged
+      = some ([(true, 4), (false, 3), (false, 3)], 4, 10) := by
+  decide +kernel
+
+open RF in
+/-- The same for the whole `Impl.recheck` on the metafile BYTES with a `ContentArg`: when the
+    bytes decode (`pyben.load`) to `mf` and the content argument resolves
+    (`ContentArg.Resolves`: a payload root is named like the torrent, a parent directory is
+    not), `Impl.recheck = Spec.recheck`. -/
+theorem recheck_eq_spec (H1 H : Bytes → Bytes) (B hs : Nat) (hhs : 0 < hs) (metafile : Bytes)
+    (mf : BVal) (arg : ContentArg) (disk : Disk) (p : Spec.Plan)
+    (hmf : Impl.loads metafile = some mf) (harg : arg.Resolves (Impl.nameOf mf))
+    (hplan : Spec.plan B mf disk = some p) (hscope : p.InScope B hs)
+    (hnodir : Spec.NoDirAtFile mf disk) (hne : ¬ Spec.EmptySingleV2 mf (isFile disk)) :
+    (Impl.recheck H1 H B hs metafile arg disk).toOption = Spec.recheck H1 H B hs mf disk ∧
+    Impl.recheck H1 H B hs metafile arg disk
+      = .ok (p.verdicts H1 H B hs, Spec.ratio (p.verdicts H1 H B hs)) := by
+  have h := recheckMeta_eq_spec H1 H B hs hhs mf disk p arg.argName
+    (some (arg.place (Impl.nameOf mf) disk)) hplan hscope
+    (Spec.findRoot_place arg _ disk harg) hnodir hne
+  simp only [Impl.recheck, hmf]
+  exact ⟨by rw [h.1, h.2]; rfl, h.1⟩
+
+/-- the bytes of the v1 example metafile, content argument = parent `h`; one file removed -/
+example :
+    Impl.recheck RF.Ex.h1 toyH 2 2 (Impl.encode RF.Ex.v1Meta) ⟨.parent, [104]⟩
+        (.dir [([97], .file [1, 2, 3]), ([98], .file [])])
+      = .ok ([(true, 4), (false, 3)], 4, 7) := by
+  decide +kernel
+
+open RF in
+/-- `consumed` is the total payload length the metafile records (the sum of the lengths of
+    the described files, padding entries of a v1 list included) — every byte is accounted
+    for exactly once, whatever is on disk — and never less than `matched`. -/
+theorem consumed_is_total (H1 H : Bytes → Bytes) (B hs : Nat) (hhs : 0 < hs) (mf : BVal)
+    (disk : Disk) (p : Spec.Plan) (recs : List FileRec) (argName : Bytes) (here : Option Node)
+    (hplan : Spec.plan B mf disk = some p) (hscope : p.InScope B hs)
+    (hroot : Impl.findRoot (Impl.nameOf mf) argName here = .ok disk)
+    (hnodir : Spec.NoDirAtFile mf disk) (hne : ¬ Spec.EmptySingleV2 mf (isFile disk))
+    (hrecs : Spec.describedFiles mf (isFile disk) = some recs) :
+    ∃ vs matched, Impl.recheckMeta H1 H B hs mf argName here = .ok (vs, matched, totalOf recs) ∧
+      matched ≤ totalOf recs := by
+  have h := (recheckMeta_eq_spec H1 H B hs hhs mf disk p argName here hplan hscope hroot hnodir
+    hne).1
+  have hs2 := Spec.verdicts_sizes H1 H B hs mf disk p hplan
+  have ht := Spec.plan_total B mf disk p recs hplan hrecs
+  refine ⟨p.verdicts H1 H B hs, (Spec.ratio (p.verdicts H1 H B hs)).1, ?_, ?_⟩
+  · rw [h, ← ht, ← hs2]
+  · rw [← ht, ← hs2]; exact Spec.ratio_le _
+
+/-- everything removed: consumed is still 3 + 0 + 4 -/
+example : Impl.recheckMeta RF.Ex.h1 toyH 2 2 RF.Ex.v1Meta [110] (some (.dir []))
+    = .ok ([(false, 4), (false, 3)], 0, 7) := by decide +kernel
 
 end TorrentVerif.Props.C16
